@@ -38,7 +38,9 @@ def work(seed, n, excl):
         part.case(core.fingerprint([ci, facts["script"]]), nt, sample=dict(script=facts["script"], rows={k: v[:3] for k, v in ci["rows"].items()}) if nt and len(part.samples) < 2 else None,
                   labels=["op=" + op, "operands=%d" % len(operands), "family=" + ci["family"]])
         if key:
-            key = key.split(":")[0] + ":" + op + ":operands=%d" % len(operands)
+            nested = sorted({o[1] for o in operands if o[0] == "setop"})
+            head = ":".join(key.split(":")[:2]) if key.startswith("raw:") else key.split(":")[0]
+            key = head + ":" + op + ":operands=%d" % len(operands) + (":nested=" + "+".join(nested) if nested else "")
             part.fail(key, dict(inputs=ci, script=facts["script"], ir=repr(ir)), what)
     prop()
     return part
@@ -55,6 +57,12 @@ def probe_known():
     part.case("probe:intersect3", True, labels=["known_finding_probe"])
     if key:
         part.fail(key.split(":")[0] + ":intersect:operands=3", dict(inputs=ci, script=facts["script"], ir=repr(ir)), what)
+    ir = ("setop", "union", [("setop", "union", [("ds", "DS_2"), ("ds", "DS_1")]), ("setop", "union", [("ds", "DS_2"), ("ds", "DS_1")])])
+    key, what, facts = diffrun.run_case(ci, ir)
+    part.case("probe:union_of_identical_unions", True, labels=["known_finding_probe"])
+    if key:
+        head = ":".join(key.split(":")[:2]) if key.startswith("raw:") else key.split(":")[0]
+        part.fail(head + ":union:operands=2:nested=union", dict(inputs=ci, script=facts["script"], ir=repr(ir)), what)
     return part
 
 
